@@ -47,9 +47,25 @@ static uint64_t c16_step_ms(void) {
     }
 }
 
+/* scripted history reproducing known finding F (DESIGN.md section 10): runs first in every shard */
+static void c16_scripted_F(Buf *b) {
+    tr("hist -1 scripted-F");
+    g_mono_ns = 1000ULL * 1000000ULL; g_real_ns = 1700000000000000000ULL; c16_host();
+    tpm2_fresh(NULL); tr("fresh");
+    c16_startup(b, 0);
+    for (int i = 0; i < 10; i++) { clock_advance_ms(60000); c16_host(); c16_readclock(b); }
+    clock_advance_ms(100000); c16_host();
+    TPM_RESULT ret = tpm2_powercycle(); tr("restart ret=%u orderly=0", ret);
+    c16_startup(b, 0); c16_readclock(b);
+    clock_advance_ms(2000); c16_host(); c16_readclock(b);
+    clock_advance_ms(3000); c16_host(); c16_readclock(b);
+}
+
 static void scen_c16(int histories, int maxops) {
     Buf b = {0};
+    c16_scripted_F(&b);
     for (int h = 0; h < histories; h++) {
+        tr("hist %d", h);
         g_mono_ns = (1 + rnd(1000000)) * 1000000ULL;
         g_real_ns = 1700000000000000000ULL + rnd(1000000) * 1000000ULL;
         c16_host();
@@ -82,7 +98,7 @@ static void scen_c16(int histories, int maxops) {
                 if (chance(20)) c16_commitcmd(&b);
                 clock_advance_ms(c16_step_ms()); c16_host();
                 TPM_RESULT ret = tpm2_powercycle();
-                tr("restart ret=%u", ret);
+                tr("restart ret=%u orderly=1", ret);
                 int su2 = chance(70) ? su : rnd(2);
                 c16_startup(&b, su2);
                 if (g_n_cmds && g_respbuf && g32(g_respbuf + 6) != 0) c16_startup(&b, 0);
@@ -92,7 +108,7 @@ static void scen_c16(int histories, int maxops) {
                 /* host monotonic clock may restart from a small value (host reboot) */
                 if (chance(40)) { g_mono_ns = (1 + rnd(5000)) * 1000000ULL; g_real_ns += rnd(1000000) * 1000000ULL; c16_host(); }
                 TPM_RESULT ret = tpm2_powercycle();
-                tr("restart ret=%u", ret);
+                tr("restart ret=%u orderly=0", ret);
                 c16_startup(&b, chance(85) ? 0 : 1);
                 if (g32(g_respbuf + 6) != 0) c16_startup(&b, 0);
                 break; }
